@@ -362,6 +362,18 @@ def run_roundtrip(case, out):
     f2, s2, _ = res
     if not out.check(list(s2) == specs, "roundtrip:specifiers_differ", s2):
         return
+    # reads must not depend on what was read before: a file with the same labels but the opposite kind of content
+    # (text where this one has numbers and vice versa) is read in between, then the first file again
+    with open("other.star", "w") as fo:
+        for cb in case["blocks"]:
+            fo.write(f"\n{cb['spec']}\n\nloop_\n" + "".join(f"_{c['name']} #{i + 1}\n" for i, c in enumerate(cb["cols"])))
+            fo.write(" ".join(("gq%d" % i if c["kind"] in ("int", "float") else str(i + 1)) for i, c in enumerate(cb["cols"])) + "\n\n")
+    ok, _ = call(out, "Starfile.read", lambda: starfileio.Starfile.read("other.star"))
+    if ok:
+        ok, again = call(out, "Starfile.read", lambda: starfileio.Starfile.read("w.star"))
+        if ok:
+            same = list(again[1]) == list(s2) and all(a_.equals(b_) and list(a_.dtypes) == list(b_.dtypes) for a_, b_ in zip(again[0], f2))
+            out.check(same, "read:result_depends_on_previously_read_file", "second read of the same file differs after another file with the same labels was read")
     for f, cb in zip(f2, case["blocks"]):
         names = [c["name"] for c in cb["cols"]]
         if not out.check(list(f.columns) == names, "roundtrip:labels_differ", f"{list(f.columns)}"):
